@@ -212,4 +212,6 @@ def _dispatch_table(rc: RuleCtx):
             rc.expect_equal("T2", fi, val, want, f"compute_cost_coef[{mname}] == metrics.{mname}(y, m*x+b)")
     rc.res.not_decided += ["'beyond rounding noise' clause", "the numeric cost values themselves"]
     rc.res.assumptions += ["t > 0; the cost literal for <= 2 points is handled under C01-R1b"]
+    from .common import hidden_state as _hidden_state
+    _hidden_state(rc, "T6", ['rdp.rdp', 'rdp.compute_cost_coef'], "threshold RDP")
     rc.res.require_instances("C04 obligations", len(rc.res.obligations), 15)
